@@ -198,12 +198,39 @@ fn expand(input: TokenStream, newline: bool) -> TokenStream {
                         positional[next_pos - 1].clone()
                     }
                 };
-                let (func, extra): (&str, Option<usize>) = if spec.is_empty() {
-                    ("::litefmt::LiteDisplay::lite_fmt", None)
-                } else if let Some(w) = spec.strip_prefix('0').and_then(|r| r.strip_suffix('X')).and_then(|w| w.parse::<usize>().ok()) {
+                if spec.is_empty() {
+                    // { use ViaLite, ViaDisplay; (&Wrap(&(arg))).lite_go(&mut *(dst)) }
+                    let mut inner = ts("#[allow(unused_imports)] use ::litefmt::{ViaLite as _, ViaDisplay as _};");
+                    let mut wrap_args = ts("&");
+                    wrap_args.extend([group(Delimiter::Parenthesis, arg)]);
+                    let mut recv = ts("&::litefmt::Wrap");
+                    recv.extend([group(Delimiter::Parenthesis, wrap_args)]);
+                    inner.extend([group(Delimiter::Parenthesis, recv)]);
+                    inner.extend(ts(".lite_go"));
+                    let mut a = ts("&mut *");
+                    a.extend([group(Delimiter::Parenthesis, dst.clone())]);
+                    inner.extend([group(Delimiter::Parenthesis, a)]);
+                    let call: TokenStream = [group(Delimiter::Brace, inner)].into_iter().collect();
+                    body.extend(ts("if let ::core::result::Result::Err(__e) ="));
+                    body.extend(call);
+                    body.extend([group(Delimiter::Brace, ts("break '__lw ::core::result::Result::Err(__e);"))]);
+                    continue;
+                }
+                // supported: {:0N} {:N} {:>N} {:<N} (decimal integers), {:0NX} {:0Nx} {:X} {:x} (hex)
+                let (func, extra): (&str, Option<usize>) = if let Some(w) = spec.strip_prefix('0').and_then(|r| r.strip_suffix('X')).and_then(|w| w.parse::<usize>().ok()) {
                     ("::litefmt::LiteUpperHex::lite_upper_hex_pad0", Some(w))
+                } else if let Some(w) = spec.strip_prefix('0').and_then(|r| r.strip_suffix('x')).and_then(|w| w.parse::<usize>().ok()) {
+                    ("::litefmt::LiteUpperHex::lite_lower_hex_pad0", Some(w))
+                } else if spec == "X" {
+                    ("::litefmt::LiteUpperHex::lite_upper_hex_pad0", Some(0))
+                } else if spec == "x" {
+                    ("::litefmt::LiteUpperHex::lite_lower_hex_pad0", Some(0))
                 } else if let Some(w) = spec.strip_prefix('0').and_then(|w| w.parse::<usize>().ok()) {
                     ("::litefmt::LiteDecPad0::lite_dec_pad0", Some(w))
+                } else if let Some(w) = spec.strip_prefix('<').and_then(|w| w.parse::<usize>().ok()) {
+                    ("::litefmt::LiteDecPad0::lite_dec_pad_left_aligned", Some(w))
+                } else if let Some(w) = spec.strip_prefix('>').unwrap_or(&spec).parse::<usize>().ok().filter(|_| !spec.starts_with('0')) {
+                    ("::litefmt::LiteDecPad0::lite_dec_pad_space", Some(w))
                 } else {
                     return compile_error(&format!("lite_write!: unsupported format spec `{{:{spec}}}`"));
                 };
